@@ -210,7 +210,8 @@ def run_case(ctx, case):
         # centres inside the library's pole-snapping band (|z| > 1 - 1e-8, i.e. within 1.42e-4 rad of a pole) are reported at the pole
         zb, wide = (1 - 1e-5, 2e-3) if f32 else (1 - 1.01e-8, 1.5e-4)
         node_in_band = np.abs(nodeP[:, 2]) > zb  # a corner inside the band may itself be reported at the pole
-        band = np.where((np.abs(want[:, 2]) > zb) | np.array([bool(node_in_band[r].any()) for r in rings]), wide, ctol)
+        cond = np.array([len(r) / max(float(np.linalg.norm(nodeP[r].sum(axis=0))), 1e-12) for r in rings])  # same amplification for very large faces
+        band = np.where((np.abs(want[:, 2]) > zb) | np.array([bool(node_in_band[r].any()) for r in rings]), wide, ctol * cond)
         err = float(np.max(ref.angle(want, got) - band))
         ctx.check("derived_centre_is_corner_mean", err < 0, {"kind": "face", "prov": prov["node"]}, {"max_err_over_tolerance_rad": err, "case": case})
     if equal_radius and "edge_ll" not in supplied and "edge_xyz" not in supplied:
@@ -219,7 +220,9 @@ def run_case(ctx, case):
         got = ref.lonlat_to_xyz(*final["edge_ll"])
         zb, wide = (1 - 1e-5, 2e-3) if f32 else (1 - 1.01e-8, 1.5e-4)
         node_in_band = np.abs(nodeP[:, 2]) > zb
-        band = np.where((np.abs(want[:, 2]) > zb) | node_in_band[en[:, 0]] | node_in_band[en[:, 1]], wide, ctol)
+        # the midpoint of a long edge is the direction of a short vector (|a + b| = 2 cos(half the arc)): rounding is amplified by 2 / |a + b|
+        cond = 2.0 / np.maximum(np.linalg.norm(nodeP[en[:, 0]] + nodeP[en[:, 1]], axis=1), 1e-12)
+        band = np.where((np.abs(want[:, 2]) > zb) | node_in_band[en[:, 0]] | node_in_band[en[:, 1]], wide, ctol * cond)
         err = float(np.max(ref.angle(want, got) - band))
         ctx.check("derived_centre_is_corner_mean", err < 0, {"kind": "edge", "prov": prov["node"]}, {"max_err_over_tolerance_rad": err, "case": case})
     # supplied centres are carried (same positions)
